@@ -56,7 +56,8 @@ def yield_filter(op: str, path: str, phase: tuple) -> bool:
 
 
 def run_case(ctx, txns: List[Dict[str, Any]], chooser_factory, age_jump: int, second_gc: bool = False,
-             delayed_flip: bool = False) -> Dict[str, Any]:
+             delayed_flip: bool = False, grace: int = 0) -> Dict[str, Any]:
+    grace = grace or GRACE
     """delayed_flip: the storage answers transaction 0's pointer write with a timeout and applies it LATER (actor N lands
     it): an ambiguous commit outcome on a store whose write failures are not atomic."""
     """txns: [{"kind": "append"|"rollback", "rows": [...]}]; actor G = collector; actor K = the clock (jumps by age_jump)."""
@@ -153,7 +154,7 @@ def run_case(ctx, txns: List[Dict[str, Any]], chooser_factory, age_jump: int, se
                 w = {"start": sc.clock_ms}
                 gc_windows.append(w)
                 try:
-                    return t.garbage_collect(grace_period_ms=GRACE)
+                    return t.garbage_collect(grace_period_ms=grace)
                 finally:
                     w["end"] = sc.clock_ms
                     # the proviso is judged on the LONGEST run of the case
@@ -201,6 +202,7 @@ def run_case(ctx, txns: List[Dict[str, Any]], chooser_factory, age_jump: int, se
             out["outcomes"] = {n: (("raised", type(a.error).__name__ + ": " + str(a.error)[:120]) if a.error else ("ok", str(a.result))) for n, a in sc.actors.items()}
             out["gc_window"] = gc_window
             out["delayed_flip"] = delayed_flip
+            out["grace"] = grace
             try:
                 out["final"] = P.read_table_independent(root)
             except Exception as e:
@@ -215,7 +217,7 @@ def oracle(out: Dict[str, Any]) -> Optional[str]:
     if out["deadlock"]:
         return "deadlock: " + out["deadlock"]
     w = out["gc_window"]
-    if "end" in w and w["end"] - w["start"] >= GRACE:
+    if "end" in w and w["end"] - w["start"] >= out.get("grace", GRACE):
         return None                                    # outside the proviso: the run lasted longer than the grace period
     if "error" in out["final"]:
         return "table unreadable after the run: " + out["final"]["error"]
@@ -287,7 +289,7 @@ def project(out: Dict[str, Any], ntx: int) -> Tuple[List[str], Optional[str]]:
                 #  the sweeps use is the one refresh() took -- a stutter step of the model)
                 evs.append("GMeta")
             elif op == "list_files" and path.rstrip("/") in ("data", "metadata/manifests"):
-                evs.append(f"GList {GRACE}")
+                evs.append(f"GList {out.get('grace', GRACE)}")
             elif op == "delete_file" and pcs == "data":
                 b = path.rsplit("/", 1)[-1]
                 if b in data_of:
@@ -423,6 +425,24 @@ def directed_delayed_flip(ctx, txns, quick: bool):
             yield [("segments3", seg)], run_case(ctx, txns, segment_chooser(seg), 5000, delayed_flip=True)
 
 
+def directed_long_run(ctx, txns, quick: bool):
+    """A LONG collection run under a LONG grace period (10 min; the run lasts 200 s, inside the proviso): the collector has
+    loaded markers and metadata, a transaction writes everything and commits, time passes, the collector sweeps.  Files
+    created during the run are younger than the grace period whatever else is true of them."""
+    big = 600_000
+    probe = run_case(ctx, txns, segment_chooser([("G", 10**6), ("A0", 10**6), ("K", 10**6)]), 100_000, grace=big)
+    ng = sum(1 for a in probe["schedule"] if a == "G")
+    na = sum(1 for a in probe["schedule"] if a == "A0")
+    ks = list(range(1, ng))
+    js = [0, max(1, na // 3), max(2, 2 * na // 3)]
+    combos = [(k, j) for k in ks for j in js]
+    if quick and len(combos) > 24:
+        combos = ctx.rng.sample(combos, 24)
+    for k, j in combos:
+        seg = [("A0", j), ("G", k), ("A0", 10**6), ("K", 10**6), ("G", 10**6)]
+        yield [("segments4", seg)], run_case(ctx, txns, segment_chooser(seg), 100_000, grace=big)
+
+
 TXSETS = [
     [{"kind": "append", "rows": [{"x": 100}]}],
     [{"kind": "append", "rows": [{"x": 100}]}, {"kind": "rollback", "rows": [{"x": 200}]}],
@@ -451,6 +471,7 @@ def run(ctx) -> None:
         if ti == 0:
             runs += list(directed_two_runs(ctx, txns, quick))
             runs += list(directed_delayed_flip(ctx, txns, quick))
+            runs += list(directed_long_run(ctx, txns, quick))
         for k in range(10 if quick else 200):
             seed = ctx.rng.randrange(1 << 30)
             runs.append(([("random", seed)], run_case(ctx, txns, lambda sc, seed=seed: S.random_chooser(_r.Random(seed), 0.4), 5000)))
@@ -458,7 +479,7 @@ def run(ctx) -> None:
             total += 1
             ctx.count(1, (ti, tuple(out["schedule"])))
             w = out["gc_window"]
-            in_proviso = "end" in w and w["end"] - w["start"] < GRACE
+            in_proviso = "end" in w and w["end"] - w["start"] < out.get("grace", GRACE)
             judged += 1 if in_proviso else 0
             why = oracle(out)
             if why:
@@ -495,7 +516,9 @@ def replay(ctx, payload) -> int:
         print("replay: no concrete case")
         return 2
     dev = c.get("deviations", [])
-    if dev and dev[0][0] == "segments3":
+    if dev and dev[0][0] == "segments4":
+        out = run_case(ctx, c["txns"], segment_chooser([(a, n) for a, n in dev[0][1]]), 100_000, grace=600_000)
+    elif dev and dev[0][0] == "segments3":
         out = run_case(ctx, c["txns"], segment_chooser([(a, n) for a, n in dev[0][1]]), c.get("age_jump", 5000), delayed_flip=True)
     elif dev and dev[0][0] == "segments2":
         out = run_case(ctx, c["txns"], segment_chooser([(a, n) for a, n in dev[0][1]]), c.get("age_jump", 5000), second_gc=True)
